@@ -546,7 +546,11 @@ impl<'r, T: Reg> Drv<'r, T> {
             }
             if m.is_array {
                 self.op_new(0, mask(T::N));
-                for i in [m.count, m.count + 1, m.count + 7, 1usize << 20, 1usize << 61, (1usize << 62) + 5, usize::MAX / 3 + 1, usize::MAX] {
+                // indices whose byte-blind product index * stride WRAPS back into range: ceil(2^64 / stride) (+1), and the powers of two
+                let wrap = (((1u128 << 64) + (m.stride.max(1) as u128) - 1) / (m.stride.max(1) as u128)) as usize;
+                for i in [m.count, m.count + 1, m.count + 7, 1usize << 20, 1usize << 60, 1usize << 61, (1usize << 62) + 5, 1usize << 62, 1usize << 63,
+                          (1usize << 63) + 1, wrap, wrap.wrapping_add(1), usize::MAX / 3 + 1, usize::MAX] {
+                    if i < m.count { continue; }
                     self.op_get(0, f, i);
                 }
             }
@@ -593,7 +597,11 @@ impl<'r, T: Reg> Drv<'r, T> {
             }
             if m.is_array {
                 let v0 = self.rand_val(f);
-                for i in [m.count, m.count + 1, m.count + 7, 1usize << 20, 1usize << 61, (1usize << 62) + 5, usize::MAX / 3 + 1, usize::MAX] {
+                // indices whose byte-blind product index * stride WRAPS back into range: ceil(2^64 / stride) (+1), and the powers of two
+                let wrap = (((1u128 << 64) + (m.stride.max(1) as u128) - 1) / (m.stride.max(1) as u128)) as usize;
+                for i in [m.count, m.count + 1, m.count + 7, 1usize << 20, 1usize << 60, 1usize << 61, (1usize << 62) + 5, 1usize << 62, 1usize << 63,
+                          (1usize << 63) + 1, wrap, wrap.wrapping_add(1), usize::MAX / 3 + 1, usize::MAX] {
+                    if i < m.count { continue; }
                     self.op_new(0, mask(T::N));
                     self.op_with(0, 1, f, i, v0);
                     self.op_set(0, f, i, v0);
